@@ -74,35 +74,39 @@ Max(S) == CHOOSE x \in S : \A y \in S : x >= y
 RECURSIVE Depth(_)
 Depth(k) == IF k = 0 THEN 0
             ELSE Depth(k - 1) + (CASE Toks[k].t = "push" -> 1 [] Toks[k].t = "pop" -> -1 [] OTHER -> 0)
+DepthTable == [k \in 0..Len(Toks) |-> Depth(k)]
 
-ValidTokens == \A k \in 1..Len(Toks) : Depth(k) >= 0
-FirstBadPop == Min({k \in 1..Len(Toks) : Depth(k) < 0})
+ValidTokensD(D) == \A k \in 1..Len(Toks) : D[k] >= 0
+ValidTokens == ValidTokensD(DepthTable)
+FirstBadPop == LET D == DepthTable IN Min({k \in 1..Len(Toks) : D[k] < 0})
 
 (* the --pop-state at b closes the --push-state at a *)
-Matched(a, b) ==
+Matched(D, a, b) ==
     /\ a < b /\ Toks[a].t = "push" /\ Toks[b].t = "pop"
-    /\ Depth(a - 1) = Depth(b)
-    /\ \A k \in a..(b - 1) : Depth(k) > Depth(b)
+    /\ D[a - 1] = D[b]
+    /\ \A k \in a..(b - 1) : D[k] > D[b]
 
 (* a flag at q is invisible from p when it sits inside a push/pop pair closed before p *)
-HiddenFrom(q, p) == \E a \in 1..(q - 1), b \in (q + 1)..(p - 1) : Matched(a, b)
+HiddenFrom(D, q, p) == \E a \in 1..(q - 1), b \in (q + 1)..(p - 1) : Matched(D, a, b)
 
 TokPos(f) == CHOOSE p \in 1..Len(Toks) : Toks[p].t = "file" /\ Toks[p].f = f
 
-AsnDecl(f) ==
+AsnDeclD(D, f) ==
     LET p == TokPos(f)
-        vis == {q \in 1..(p - 1) : Toks[q].t \in {"as", "noas"} /\ ~HiddenFrom(q, p)}
+        vis == {q \in 1..(p - 1) : Toks[q].t \in {"as", "noas"} /\ ~HiddenFrom(D, q, p)}
     IN IF vis = {} THEN FALSE ELSE Toks[Max(vis)].t = "as"
+
+(* asn table: for every file, is it under --as-needed? *)
+AsnTable == LET D == DepthTable IN [f \in FileIds |-> AsnDeclD(D, f)]
+AsnDecl(f) == AsnTable[f]
 
 OrderDecl == LET ps == {p \in 1..Len(Toks) : Toks[p].t = "file"}
                  RECURSIVE Build(_)
                  Build(S) == IF S = {} THEN <<>> ELSE <<Toks[Min(S)].f>> \o Build(S \ {Min(S)})
              IN Build(ps)
 
-PosIn(seq, f) == CHOOSE k \in 1..Len(seq) : seq[k] = f
-
 -----------------------------------------------------------------------------
-(* Declarative part 2: the property (order independent). *)
+(* Declarative part 2: the property (order independent).  A is the asn table, O the file order. *)
 
 (* regular files that take part in the link: all objects, and archive members that define a name
    some loaded regular file references strongly and no object defines (least fixpoint) *)
@@ -113,18 +117,15 @@ LoadedRegFrom(L) ==
     IN IF add = {} THEN L ELSE LoadedRegFrom(L \cup add)
 LoadedReg == LoadedRegFrom(Objs)
 
-RegDef(n) == \E g \in LoadedReg : n \in Defs(g)
-
 FirstIn(seq, S) == IF \E k \in 1..Len(seq) : seq[k] \in S
                    THEN seq[Min({k \in 1..Len(seq) : seq[k] \in S})] ELSE 0
 
-FirstLib(n) == FirstIn(OrderDecl, {l \in Libs : n \in Defs(l)})
-
 (* l supplies the final binding of a non-weak reference from the output *)
-Satisfies(l) == \E g \in LoadedReg : \E n \in Strong(g) : ~RegDef(n) /\ FirstLib(n) = l
-
-NeededSetFinal == {l \in Libs : ~AsnDecl(l) \/ Satisfies(l)}
-NeededFinal == SelectSeq(OrderDecl, LAMBDA f : f \in NeededSetFinal)
+NeededSetFinalW(A, O, LR) ==
+    LET RegDef(n) == \E g \in LR : n \in Defs(g)
+        FirstLib(n) == FirstIn(O, {l \in Libs : n \in Defs(l)})
+        Satisfies(l) == \E g \in LR : \E n \in Strong(g) : ~RegDef(n) /\ FirstLib(n) = l
+    IN {l \in Libs : ~A[l] \/ Satisfies(l)}
 
 -----------------------------------------------------------------------------
 (* Declarative part 3: GNU ld's sequential scan. *)
@@ -133,26 +134,44 @@ GnuEmpty == [defReg |-> {}, defDyn |-> {}, refS |-> {}, needed |-> {}]
 
 GnuAddReg(s, f) == [s EXCEPT !.defReg = @ \cup Defs(f), !.refS = @ \cup Strong(f)]
 
-GnuStep(s, f) ==
+GnuStep(A, s, f) ==
     LET undef == (s.refS \ s.defReg) \ s.defDyn IN
     CASE Kind(f) = "obj" -> GnuAddReg(s, f)
       [] Kind(f) = "member" -> IF Defs(f) \cap undef # {} THEN GnuAddReg(s, f) ELSE s
       [] Kind(f) = "lib" ->
-            IF ~AsnDecl(f) \/ Defs(f) \cap undef # {}
+            IF ~A[f] \/ Defs(f) \cap undef # {}
             THEN [s EXCEPT !.defDyn = @ \cup Defs(f), !.needed = @ \cup {f}]
             ELSE s
 
-RECURSIVE GnuScan(_)
-GnuScan(k) == IF k = 0 THEN GnuEmpty ELSE GnuStep(GnuScan(k - 1), OrderDecl[k])
+RECURSIVE GnuScan(_, _, _)
+GnuScan(A, O, k) == IF k = 0 THEN GnuEmpty ELSE GnuStep(A, GnuScan(A, O, k - 1), O[k])
 
-GnuFinal == GnuScan(Len(OrderDecl))
-GnuFails == (GnuFinal.refS \ GnuFinal.defReg) \ GnuFinal.defDyn # {}
-NeededGnu == SelectSeq(OrderDecl, LAMBDA f : f \in GnuFinal.needed)
+(* the deviation class: an as-needed library is the first definer of a name on the command line,
+   a loaded regular object defines the same name (so the reference is not bound to the library),
+   and a loaded regular object references the name strongly *)
+DevFirstDefOverriddenW(A, O, LR) ==
+    \E l \in Libs, n \in AllNames :
+       /\ A[l] /\ n \in Defs(l) /\ FirstIn(O, {f \in FileIds : n \in Defs(f)}) = l
+       /\ \E g \in LR : n \in Defs(g)
+       /\ \E g \in LR : n \in Strong(g)
+
+(* everything the declarative side says about the configuration, computed once *)
+Decl ==
+    LET A == AsnTable
+        O == OrderDecl
+        LR == LoadedReg
+        nsf == NeededSetFinalW(A, O, LR)
+        g == GnuScan(A, O, Len(O))
+    IN [asn |-> A, order |-> O,
+        finalSet |-> nsf,
+        final |-> SelectSeq(O, LAMBDA f : f \in nsf),
+        gnuSet |-> g.needed,
+        gnuFails |-> (g.refS \ g.defReg) \ g.defDyn # {},
+        gnu |-> SelectSeq(O, LAMBDA f : f \in g.needed),
+        dev |-> DevFirstDefOverriddenW(A, O, LR)]
 
 -----------------------------------------------------------------------------
 (* Operational model (wild). *)
-
-Top == stack[Len(stack)]
 
 (* The MC module enumerates configurations c (records [idx, tokens, files]) lazily:
    Init is  \E <parameters> : WellFormed /\ InitWith(<configuration built from the parameters>). *)
@@ -163,38 +182,36 @@ InitWith(c) ==
     /\ asn = [f \in 1..Len(cfg.files) |-> FALSE]
     /\ order = <<>> /\ loaded = {} /\ result = <<>>
 
-ParseTok ==
-    /\ pc = "parse" /\ pos <= Len(Toks)
-    /\ pos' = pos + 1
-    /\ LET tk == Toks[pos] IN
-       CASE tk.t = "as" ->
-              /\ stack' = [stack EXCEPT ![Len(stack)] = TRUE]
-              /\ UNCHANGED <<pc, asn, order>>
-         [] tk.t = "noas" ->
-              /\ stack' = [stack EXCEPT ![Len(stack)] = FALSE]
-              /\ UNCHANGED <<pc, asn, order>>
-         [] tk.t = "push" ->
-              /\ stack' = Append(stack, Top)
-              /\ UNCHANGED <<pc, asn, order>>
-         [] tk.t = "pop" ->
-              (* modifier_stack.pop(); if modifier_stack.is_empty() { bail!("Mismatched --pop-state") } *)
-              /\ stack' = SubSeq(stack, 1, Len(stack) - 1)
-              /\ pc' = IF Len(stack) = 1 THEN "error" ELSE pc
-              /\ UNCHANGED <<asn, order>>
-         [] tk.t = "file" ->
-              /\ asn' = [asn EXCEPT ![tk.f] = Top]
-              /\ order' = Append(order, tk.f)
-              /\ UNCHANGED <<pc, stack>>
-    /\ UNCHANGED <<cfg, loaded, result>>
+(* One token of args/elf.rs applied to (stack, asn, order, error flag). *)
+TokStep(st, tk) ==
+    LET top == st.stack[Len(st.stack)] IN
+    CASE tk.t = "as" -> [st EXCEPT !.stack = [@ EXCEPT ![Len(@)] = TRUE]]
+      [] tk.t = "noas" -> [st EXCEPT !.stack = [@ EXCEPT ![Len(@)] = FALSE]]
+      [] tk.t = "push" -> [st EXCEPT !.stack = Append(@, top)]
+      [] tk.t = "pop" ->
+           (* modifier_stack.pop(); if modifier_stack.is_empty() { bail!("Mismatched --pop-state") } *)
+           [st EXCEPT !.stack = SubSeq(@, 1, Len(@) - 1), !.err = (Len(st.stack) = 1)]
+      [] tk.t = "file" -> [st EXCEPT !.asn = [@ EXCEPT ![tk.f] = top], !.order = Append(@, tk.f)]
+
+(* Run the argument parser over all tokens from position p (stops at an error). *)
+RECURSIVE RunTo(_, _)
+RunTo(st, p) ==
+    IF p > Len(Toks) \/ st.err THEN [st |-> st, p |-> p]
+    ELSE RunTo(TokStep(st, Toks[p]), p + 1)
 
 (* grouping.rs: is_optional *)
-Optional(f) == Kind(f) = "member" \/ (Kind(f) = "lib" /\ asn[f])
+OptionalW(A, f) == Kind(f) = "member" \/ (Kind(f) = "lib" /\ A[f])
 
-ParseEnd ==
-    /\ pc = "parse" /\ pos > Len(Toks)
-    /\ pc' = "resolve"
-    /\ loaded' = {f \in FileIds : ~Optional(f)}
-    /\ UNCHANGED <<cfg, pos, stack, asn, order, result>>
+(* Argument parsing is sequential and deterministic: one step.  Files that are not optional are
+   loaded from the start (resolution.rs: work_items_do for every non-optional file). *)
+Parse ==
+    /\ pc = "parse"
+    /\ LET r == RunTo([stack |-> stack, asn |-> asn, order |-> order, err |-> FALSE], pos) IN
+       /\ pos' = r.p
+       /\ stack' = r.st.stack /\ asn' = r.st.asn /\ order' = r.st.order
+       /\ pc' = IF r.st.err THEN "error" ELSE "resolve"
+       /\ loaded' = IF r.st.err THEN {} ELSE {f \in FileIds : ~OptionalW(r.st.asn, f)}
+    /\ UNCHANGED <<cfg, result>>
 
 (* symbol_db: name_to_id holds the first definition in file order, whatever kind of file it is in *)
 FirstDef(n) == FirstIn(order, {f \in FileIds : n \in Defs(f)})
@@ -207,20 +224,20 @@ Requests(f, n) ==
 
 LoadOne ==
     /\ pc = "resolve"
-    /\ \E f \in loaded, n \in AllNames :
+    /\ \E f \in loaded : \E n \in Strong(f) :
           /\ Requests(f, n) /\ FirstDef(n) \notin loaded
           /\ loaded' = loaded \cup {FirstDef(n)}
     /\ UNCHANGED <<cfg, pc, pos, stack, asn, order, result>>
 
 Finish ==
     /\ pc = "resolve"
-    /\ ~\E f \in loaded, n \in AllNames : Requests(f, n) /\ FirstDef(n) \notin loaded
+    /\ ~\E f \in loaded : \E n \in Strong(f) : Requests(f, n) /\ FirstDef(n) \notin loaded
     /\ pc' = "done"
     (* write_dynamic_file -> write_so_name for each loaded dynamic file, in file order *)
     /\ result' = SelectSeq(order, LAMBDA f : Kind(f) = "lib" /\ f \in loaded)
     /\ UNCHANGED <<cfg, pos, stack, asn, order, loaded>>
 
-Next == ParseTok \/ ParseEnd \/ LoadOne \/ Finish
+Next == Parse \/ LoadOne \/ Finish
 SpecFrom(init) == init /\ [][Next]_vars /\ WF_vars(Next)
 
 Terminal == pc \in {"done", "error"}
@@ -236,40 +253,35 @@ TypeOK ==
 (* the stack machine computes the declarative modifier state, and fails exactly on an unbalanced pop *)
 StackRefinesDecl ==
     /\ pc = "error" => (~ValidTokens /\ pos = FirstBadPop + 1)
-    /\ pc \in {"resolve", "done"} =>
+    /\ pc = "done" =>
           /\ ValidTokens
           /\ order = OrderDecl
-          /\ \A f \in FileIds : asn[f] = AsnDecl(f)
+          /\ asn = AsnTable
 
-(* the two references agree on everything that is not order dependent *)
-RefsAgreeOnUnconditional ==
-    pc = "done" =>
-       /\ \A l \in Libs : ~AsnDecl(l) => (l \in NeededSetFinal /\ l \in GnuFinal.needed)
-       /\ \A l \in Libs : (AsnDecl(l) /\ ~\E g \in FileIds, n \in Defs(l) : Kind(g) # "lib" /\ n \in Strong(g))
-                              => (l \notin NeededSetFinal /\ l \notin GnuFinal.needed)
-
-Conforms == result = NeededFinal \/ (~GnuFails /\ result = NeededGnu)
-
-(* the deviation class: an as-needed library is the first definer of a name on the command line,
-   a loaded regular object defines the same name (so the reference is not bound to the library),
-   and another loaded regular object references the name strongly *)
-DevFirstDefOverridden ==
-    \E l \in Libs, n \in AllNames :
-       /\ AsnDecl(l) /\ n \in Defs(l) /\ FirstIn(OrderDecl, {f \in FileIds : n \in Defs(f)}) = l
-       /\ RegDef(n)
-       /\ \E g \in LoadedReg : n \in Strong(g)
-
-OperationalConformsOrKnownClass == pc = "done" => (Conforms \/ DevFirstDefOverridden)
+ConformsD(D) == result = D.final \/ (~D.gnuFails /\ result = D.gnu)
 
 (* without a name defined both by a library and by a regular file the model is exactly the property *)
 NoMixedDefs == ~\E n \in AllNames : (\E l \in Libs : n \in Defs(l)) /\ (\E g \in FileIds \ Libs : n \in Defs(g))
-ExactWithoutMixedDefs == (pc = "done" /\ NoMixedDefs) => result = NeededFinal
+
+DoneFacts(D) ==
+    (* the two references agree on everything that is not order dependent *)
+    /\ \A l \in Libs : ~D.asn[l] => (l \in D.finalSet /\ l \in D.gnuSet)
+    /\ \A l \in Libs : (D.asn[l] /\ ~\E g \in FileIds, n \in Defs(l) : Kind(g) # "lib" /\ n \in Strong(g))
+                           => (l \notin D.finalSet /\ l \notin D.gnuSet)
+    (* the operational model conforms, or the configuration is in the recorded deviation class *)
+    /\ ConformsD(D) \/ D.dev
+    /\ NoMixedDefs => result = D.final
+
+OperationalConformsOrKnownClass == pc = "done" => DoneFacts(Decl)
 
 (* confluence: the set of loaded files at the end does not depend on the request order *)
 LoadedIsClosure ==
-    pc = "done" => \A f \in loaded, n \in AllNames : Requests(f, n) => FirstDef(n) \in loaded
+    pc = "done" => \A f \in loaded : \A n \in Strong(f) : Requests(f, n) => FirstDef(n) \in loaded
 
 Termination == <>Terminal
+(* cheap form for the large configurations: no state is stuck before a terminal one (the state
+   graph is acyclic: pos, loaded and pc only grow) *)
+NoStuck == ~Terminal => ENABLED Next
 
 -----------------------------------------------------------------------------
 (* REPLAY records for the harness. *)
@@ -281,17 +293,18 @@ Hash(i) == LET a == (i + Seed * 7 + 13) % 46337
 Sampled == Stride <= 1 \/ Hash(cfg.idx) % Stride = 0
 
 Rec ==
+    LET D == IF pc = "done" THEN Decl ELSE [asn |-> <<>>, final |-> <<>>, gnuFails |-> TRUE, gnu |-> <<>>, dev |-> FALSE] IN
     [idx |-> cfg.idx,
      tokens |-> cfg.tokens,
      files |-> cfg.files,
      outcome |-> pc,
-     asn |-> IF pc = "done" THEN [f \in FileIds |-> AsnDecl(f)] ELSE <<>>,
+     asn |-> D.asn,
      wild_op |-> result,
-     final |-> IF pc = "done" THEN NeededFinal ELSE <<>>,
-     gnu_fails |-> IF pc = "done" THEN GnuFails ELSE TRUE,
-     gnu |-> IF pc = "done" /\ ~GnuFails THEN NeededGnu ELSE <<>>,
-     conforms |-> IF pc = "done" THEN Conforms ELSE TRUE,
-     dev |-> IF pc = "done" THEN DevFirstDefOverridden ELSE FALSE]
+     final |-> D.final,
+     gnu_fails |-> D.gnuFails,
+     gnu |-> IF D.gnuFails THEN <<>> ELSE D.gnu,
+     conforms |-> IF pc = "done" THEN ConformsD(D) ELSE TRUE,
+     dev |-> D.dev]
 
 EmitReplay == (Terminal /\ Emit /\ Sampled) => PrintT(<<"REPLAY", ToJson(Rec)>>)
 =============================================================================
